@@ -81,8 +81,19 @@ def run(ctx):
     crosscheck(ctx, "C01.R2", MT + ".BaseMatcher.finish", REF, "finish",
                MT + ".BaseMatcher", "required / minimum checks at the closer")
 
-    crosscheck(ctx, "C01.R3", MT + ".BaseMatcher.addValue", REF, "addValue",
-               MT + ".BaseMatcher", "key search, single-value guard, store")
+    from rules.common import raw_param_uses
+    av = m.fn(MT + ".BaseMatcher.addValue")
+    raw = raw_param_uses(P, av, 0)
+    if raw:
+        run.fail("C01.R3", av.qualname, "key as written",
+                 "the key as written (before key-type normalisation) is "
+                 "consulted: %s -- two spellings of one key are not "
+                 "recognised as the same key" % "; ".join(raw),
+                 loc=m.loc(av, av.node), witness={"uses": raw})
+    else:
+        crosscheck(ctx, "C01.R3", MT + ".BaseMatcher.addValue", REF,
+                   "addValue", MT + ".BaseMatcher",
+                   "key search, single-value guard, store")
     crosscheck(ctx, "C01.R3", MT + ".BaseMatcher.addSection", REF,
                "addSection", MT + ".BaseMatcher",
                "name reuse refused before registration and slot search")
